@@ -175,3 +175,93 @@ def selftest():
     P1, Q1 = discretise_ld(np.array([[a]]), np.array([[q]]), t)
     assert abs(float(P1[0, 0]) - np.exp(a * t)) < 1e-15
     assert abs(float(Q1[0, 0]) - q * (np.exp(2 * a * t) - 1) / (2 * a)) < 1e-14
+
+
+# ----------------------------------------------------------------------------- one-shot Gauss-Markov
+def batch_estimate(P0, Phis, Qds, meas):
+    """Independent one-shot (non-recursive) estimator for x_{k+1} = Phi_k x_k + w_k, w_k ~ N(0, Qd_k),
+    x_0 ~ N(0, P0), observations Z_i = H_i x_{node_i} + v_i, v_i ~ N(0, R_i) given in processing order
+    (non-decreasing node).  Builds the joint Gaussian of all observations and every node state from the
+    unconditional covariances  Cov(x_a, x_b) = Psi(a<-b) P_b  (a >= b)  and conditions once per node.
+
+    Returns xs (M, n), Ps (M, n, n): mean/covariance of x_k given all observations attached to nodes <= k,
+    and nu: the observations whitened by the LOWER Cholesky factor of Cov(Z) in processing order."""
+    from scipy.linalg import cholesky, cho_solve, solve_triangular
+    M = len(Phis) + 1
+    n = P0.shape[0]
+    Pk = [np.asarray(P0, float)]
+    for k in range(M - 1):
+        Pk.append(Phis[k] @ Pk[-1] @ Phis[k].T + Qds[k])
+    mnodes = sorted({m[0] for m in meas})
+    # Psi[(a, b)] for every node a >= b with b a measurement node
+    Psi = {}
+    for b in mnodes:
+        cur = np.eye(n)
+        Psi[(b, b)] = cur
+        for a in range(b + 1, M):
+            cur = Phis[a - 1] @ cur
+            Psi[(a, b)] = cur
+    sizes = [len(m[1]) for m in meas]
+    off = np.concatenate([[0], np.cumsum(sizes)]).astype(int)
+    nz = int(off[-1])
+    S = np.zeros((nz, nz))
+    Z = np.concatenate([np.asarray(m[1], float) for m in meas]) if meas else np.zeros(0)
+    for i, (ni, zi, Hi, Ri) in enumerate(meas):
+        for j in range(i + 1):
+            nj, zj, Hj, Rj = meas[j]
+            blk = Hi @ Psi[(ni, nj)] @ Pk[nj] @ Hj.T
+            if i == j:
+                blk = blk + Ri
+            S[off[i]:off[i + 1], off[j]:off[j + 1]] = blk
+            if i != j:
+                S[off[j]:off[j + 1], off[i]:off[i + 1]] = blk.T
+    nodes_of_rows = np.concatenate([[m[0]] * len(m[1]) for m in meas]).astype(int) if meas else np.zeros(0, int)
+    nu = solve_triangular(cholesky(S, lower=True), Z, lower=True) if nz else np.zeros(0)
+    xs = np.zeros((M, n))
+    Ps = np.zeros((M, n, n))
+    for k in range(M):
+        sel = [i for i, m in enumerate(meas) if m[0] <= k]
+        if not sel:
+            Ps[k] = Pk[k]
+            continue
+        C = np.hstack([Psi[(k, meas[i][0])] @ Pk[meas[i][0]] @ meas[i][2].T for i in sel])
+        cnt = int(off[sel[-1] + 1])          # processing order is by node, so the selected rows are a prefix
+        L = cholesky(S[:cnt, :cnt], lower=True)
+        xs[k] = C @ cho_solve((L, True), Z[:cnt])
+        Ps[k] = Pk[k] - C @ cho_solve((L, True), C.T)
+    condS = float(np.linalg.cond(S)) if nz else 1.0
+    return xs, Ps, nu, condS
+
+
+def selftest_batch():
+    """batch_estimate vs a textbook recursive filter written here (both own code)."""
+    rng = np.random.RandomState(7)
+    n, M = 4, 6
+    A = rng.randn(n, n)
+    P0 = A @ A.T
+    Phis = [np.eye(n) + 0.1 * rng.randn(n, n) for _ in range(M - 1)]
+    Qds = []
+    for _ in range(M - 1):
+        B = rng.randn(n, 2)
+        Qds.append(0.01 * B @ B.T)
+    meas = []
+    for node in (0, 2, 2, 5):
+        H = rng.randn(2, n)
+        meas.append((node, rng.randn(2), H, np.diag(rng.uniform(0.1, 1, 2))))
+    xs, Ps, nu, _ = batch_estimate(P0, Phis, Qds, meas)
+    x = np.zeros(n)
+    P = P0.copy()
+    nus = []
+    for k in range(M):
+        for (node, z, H, R) in meas:
+            if node == k:
+                S = H @ P @ H.T + R
+                K = P @ H.T @ np.linalg.inv(S)
+                nus.append(np.linalg.solve(np.linalg.cholesky(S), z - H @ x))
+                x = x + K @ (z - H @ x)
+                P = P - K @ H @ P
+        assert np.abs(x - xs[k]).max() < 1e-10 and np.abs(P - Ps[k]).max() < 1e-10, (k, np.abs(x - xs[k]).max())
+        if k < M - 1:
+            x = Phis[k] @ x
+            P = Phis[k] @ P @ Phis[k].T + Qds[k]
+    assert np.abs(np.concatenate(nus) - nu).max() < 1e-10
